@@ -28,7 +28,8 @@ REQUIRED = ["totality.draw", "totality.render", "totality.rasterised", "types.ic
             "lanelets.all", "lanelets.subset", "lanelets.empty-list", "propagation.root", "propagation.nested",
             "propagation.value-collision", "flag.draw_icon", "flag.show_label", "flag.draw_occupancies",
             "flag.draw_signals", "flag.draw_continuous", "uncertain-state-drawn", "pp.draw_ids",
-            "exactness.uncertain-initial-position", "totality.fan-lanelet-with-marked-short-bound",
+            "exactness.uncertain-initial-position", "exactness.parameters-passed-with-the-draw-call",
+            "totality.fan-lanelet-with-marked-short-bound",
             "trajectory-windows.layout-UUUU", "trajectory-windows.layout-EEEUUUEEEE", "trajectory-windows.mode-continuous",
             "exactness.uncertain-initial-position.begin-after-initial-step"]
 ASSUMPTIONS = ["colours, z-order and label text are not judged", "exactness is judged for exact states only (an extra "
@@ -376,9 +377,19 @@ def run(ctx):
         wit = {"time_begin": tb, "time_end": te, "draw_ids": sel, "renderer": rconf,
                "obstacles": [[type(o).__name__, o.obstacle_id] for o in obs]}
         try:
-            rnd = MPRenderer(draw_params=P, ax=fig.gca(), **rkw)
             ctx.evaluation()
-            sc.draw(rnd)
+            if rconf == "default" and i % 2 == 1:
+                # the parameters are handed over with the draw call, object by object (a renderer with its own default
+                # parameters): "every draw-parameter setting" applies however it reaches the renderer
+                rnd = MPRenderer(ax=fig.gca())
+                sc.lanelet_network.draw(rnd, P)
+                for ob_ in sc.obstacles:
+                    ob_.draw(rnd, P)
+                ctx.feature("exactness.parameters-passed-with-the-draw-call")
+                wit["route"] = "object.draw(renderer, params)"
+            else:
+                rnd = MPRenderer(draw_params=P, ax=fig.gca(), **rkw)
+                sc.draw(rnd)
             patches = [patch_desc(p) for p in rnd.obstacle_patches]
             fills = [c for c in rnd.static_collections if type(c).__name__ == "PolyCollection"]
             rnd.render()
